@@ -26,6 +26,7 @@ func main() {
 	workers := fs.Int("workers", runtime.NumCPU(), "parallel cases")
 	replay := fs.String("replay", "", "replay file")
 	shards := fs.Int("shards", 1, "trace shards")
+	profile := fs.String("profile", "payload", "generation profile")
 	fs.Parse(os.Args[2:])
 	if *scratch == "" {
 		fmt.Fprintln(os.Stderr, "--scratch required")
@@ -38,6 +39,8 @@ func main() {
 	switch fam {
 	case "plan":
 		stats = famPlan(tr, *scratch, *seed, *tier, *workers)
+	case "pkg":
+		stats = famPkg(tr, *scratch, *seed, *tier, *workers, *profile)
 	default:
 		fmt.Fprintln(os.Stderr, "unknown family", fam)
 		os.Exit(2)
